@@ -82,9 +82,31 @@ def f18c_probe(ctx):
     return []
 
 
+def big_stack_oracle(ctx):
+    """The model's list functions are structurally recursive; on 128256-token vocabularies the compiled oracle
+    needs a deeper stack than the default 8 MB."""
+    import resource
+    import subprocess
+
+    def oracle(ops_path, out_path):
+        def lim():
+            try:
+                resource.setrlimit(resource.RLIMIT_STACK, (resource.RLIM_INFINITY, resource.RLIM_INFINITY))
+            except (ValueError, OSError):
+                hard = resource.getrlimit(resource.RLIMIT_STACK)[1]
+                resource.setrlimit(resource.RLIMIT_STACK, (hard, hard))
+        with open(ops_path, "rb") as fin, open(out_path, "wb") as fout:
+            p = subprocess.run([ctx.oracle_bin()], stdin=fin, stdout=fout, stderr=subprocess.PIPE, preexec_fn=lim)
+        if p.returncode != 0:
+            raise RuntimeError("oracle failed: " + p.stderr.decode()[-2000:])
+    return oracle
+
+
 def run(ctx):
+    ctx.oracle = big_stack_oracle(ctx)
     ctx.lean_check(MODULES, THEOREMS)
-    env = {"VERIF_N": ctx.scale(1500, 30000), "VERIF_NG": ctx.scale(250, 5000), "VERIF_C18_FIX": FIX,
+    env = {"VERIF_N": ctx.scale(1500, 30000), "VERIF_NG": ctx.scale(250, 5000), "VERIF_NL": ctx.scale(1, 4),
+           "VERIF_C18_FIX": FIX,
            "VERIF_CORPUS": core.ROOT + "/corpus/C18"}
     if ctx.replay:
         env["VERIF_REPLAY"] = ctx.replay_line_file()
@@ -116,8 +138,10 @@ def run(ctx):
         level="proof",
         rule="seeded random histories: one real Sampler (temperature x topK x topP x minP x seed), 1..8 calls with "
              "related/unrelated logit vectors of 13 classes (ties, -Inf masks, +Inf, 3e38, denormals, raw bit patterns, "
-             "NaN, all -Inf, ulp neighbours, peaked, long tail + masks), length 1..4096; crafted random numbers through a "
-             "fixed rand.Source; directed temperature-0 near-tie search; distinct = distinct oracle command lines",
+             "NaN, all -Inf, ulp neighbours, peaked, long tail + masks), length 1..4096, plus vocabularies of 16383/16384/"
+             "16385/32000/128256 logits; grammar histories on the real llama.cpp grammar; crafted random numbers through a "
+             "fixed rand.Source; directed temperature-0 near-tie and special-seed searches; every 6th history and all "
+             "large ones re-sampled under GOMAXPROCS 1/2/7/16; distinct = distinct oracle command lines",
         explanation="Lean theorems about the order-abstract sampler model; model tied to the code by bit-exact "
                     "comparison of every stage and of the final token given the seeded random number (L1), by "
                     "per-run IEEE contracts, and by the property clauses evaluated on the real Sample result (L2)")
